@@ -56,6 +56,15 @@ def family(text, text2, f, kind="OK"):
     if "(BP+PX)" in text or "(BP+PY)" in text:
         return "register_indexed_operand_(BP+PX)/(BP+PY)_loses_the_operand_byte_the_decoder_consumes"
     if f is not None and f.get("same_text") == "1" and f.get("same_il") != "1" and text.split("_")[0] in ("ADD", "SUB", "MV", "EX"):
+        mn = text.split("_")[0]
+        if mn in ("ADD", "SUB"):
+            # the recorded finding: the assembler picks the opcode form by the width of the FIRST register written
+            first = text.partition("_")[2].replace("_", "").split(",")[0]
+            w = {"A": 1, "B": 1, "IL": 1, "IH": 1, "BA": 2, "I": 2, "X": 3, "Y": 3, "U": 3, "S": 3}.get(first)
+            exp = {"ADD": {1: "46", 2: "44", 3: "45"}, "SUB": {1: "4e", 2: "4c", 3: "4d"}}[mn].get(w)
+            new = f.get("new", "")
+            if exp is None or exp not in (new[0:2], new[2:4]):
+                return "register_pair_opcode_not_the_form_of_the_first_register"
         return "text_does_not_determine_the_register_pair_opcode"
     if kind == "OK" and f is not None and f.get("same_text") != "1" and defaulted(text, text2):
         # the assembler emitted no prefix byte: every internal operand comes back in the default mode
